@@ -65,6 +65,8 @@ type session struct {
 	classes []*class // usable classes (representatives pairwise eq on the real code)
 	mu      sync.Mutex
 	rejects map[string]int
+	condOut []string // conditional classes whose members the real eq does not report equal
+	all     []*class // every class of the pool, usable or not (hash pairs are recorded for all)
 }
 
 func run(c *lib.Ctx) error {
@@ -80,6 +82,7 @@ func run(c *lib.Ctx) error {
 	if err := buildClasses(b, all); err != nil {
 		return lib.Infra("%v", err)
 	}
+	s.all = all
 	if err := s.selectClasses(all); err != nil {
 		return err
 	}
@@ -167,15 +170,23 @@ func (s *session) selectClasses(all []*class) error {
 		for i := range rs {
 			for j := range rs {
 				if !vals.Equal(rs[i].x, rs[j].x) {
+					if ok && !c.conditional {
+						s.c.Logf("class %s left out: real eq says %s and %s differ (C09's subject)", c.name, rs[i].desc, rs[j].desc)
+					}
 					ok = false
-					s.c.Logf("class %s left out: real eq says %s and %s differ (C09's subject)", c.name, rs[i].desc, rs[j].desc)
 				}
 			}
 		}
 		if ok {
 			s.classes = append(s.classes, c)
+			if c.conditional {
+				s.c.Logf("conditional class %s: the real eq reports its members equal, so they must be one key", c.name)
+			}
+		} else if c.conditional {
+			s.condOut = append(s.condOut, c.name)
 		}
 	}
+	s.c.Set("conditional_classes_not_eq_on_this_tree", s.condOut)
 	for i, c1 := range s.classes {
 		for j, c2 := range s.classes {
 			if i == j {
